@@ -170,7 +170,8 @@ def check_rebuild(np, sparse, layout):
         for t, c in enumerate(path):
             lg[t, c] = 5.0
         tr = {0: 'ab a', 1: 'bb'}[k]
-        reg.lines.append(layout.TextLine(id='r1-l%d' % k, baseline=np.array([[5, 15 + 20 * k], [100, 15 + 20 * k]]),
+        # (ids that look like already-validated ones, `id_…`, are ordinary ids: the logits file is keyed by them)
+        reg.lines.append(layout.TextLine(id=('r1-l%d' if k == 0 else 'id_r1-l%d') % k, baseline=np.array([[5, 15 + 20 * k], [100, 15 + 20 * k]]),
                                          polygon=np.array([[5, 5 + 20 * k], [100, 5 + 20 * k], [100, 18 + 20 * k], [5, 18 + 20 * k]]), heights=[10.0, 3.0],
                                          transcription=tr, logits=sparse.csc_matrix(lg), characters=chars, logit_coords=[0, len(path)], index=k))
     pl.regions.append(reg)
@@ -180,6 +181,10 @@ def check_rebuild(np, sparse, layout):
     q.load_logits(data)
     dec = GreedyDecoder(chars[:-1] + [BLANK_SYMBOL])
     for a, b in zip(pl.lines_iterator(), q.lines_iterator()):
+        if a.id != b.id or b.logits is None:
+            bad.append(('rebuilt-layout-redecodes', 'line saved as %r came back from PAGE XML + logits as %r with logits %s'
+                        % (a.id, b.id, 'missing' if b.logits is None else 'present')))
+            continue
         ta, tb = dec(a.get_full_logprobs()).best_hyp(), dec(b.get_full_logprobs()).best_hyp()
         if ta != tb or ta != a.transcription:
             bad.append(('rebuilt-layout-redecodes', 'line %s: %r vs %r (stored %r)' % (a.id, ta, tb, a.transcription)))
